@@ -31,7 +31,9 @@
 // redirect targets, final disconnect + reason) is compared with the reference computed from
 // the state at the time of the kick;
 // (3) loader: as (1) with the configuration written to a file with mixed-case forced-host keys
-// and read back by gate.LoadConfig.
+// and read back by gate.LoadConfig;
+// (4) e2e-initial and (5) e2e-chain: a live proxy with wire-level clients and scripted backends,
+// see e2e_test.go.
 package c17
 
 import (
@@ -456,6 +458,8 @@ func TestC17(t *testing.T) {
 	r.Assume("reference written from the statement (see file comment); 'next listed' is read with the try cursor, and a sequence ends at the first nil")
 	r.Assume("hook verif_hooks_c17.go builds the player like authSessionHandler does and sets current/in-flight through setConnectedServer/setInFlightConnection; verif_hooks_c17b.go sets an in-flight connection that the backend has already disconnected (the state when the server being connected to kicks the player)")
 	r.Assume("a kick by a server other than the player's current one while it has a current server (failed switch) chooses no server: notify is expected, only a redirect to a wrong server is judged; with another server's connection in flight only the first KickedFromServerEvent of a chain is judged")
+
+	r.Assume("e2e layers (e2e_test.go): live proxy.New + HandleConn over in-memory pipes; the client's handshake bytes are written by the harness's own encoder; the initial choice is read from PlayerChooseInitialServerEvent and from the fake backend that receives the login; chains are observed as the order of backend dials plus the client's final state; a port inside the address field is accepted under both readings; a backend that kicks and closes right after JoinGame may count as joined or as a failed attempt (both accepted, one such connection per case)")
 
 	runDirect(r, "direct", r.N(20000, 900000), false)
 	runChain(r, r.N(3000, 100000))
